@@ -74,6 +74,14 @@ theorem cacheInv_fe {k : Cache} (f : Cache → Cache) (hf : ∀ k, (f k).status 
     CacheInv (f k) := by
   intro x hx; rw [hf] at hx; exact h x hx
 
+/-- the lowest-PID stop of parent() (guarded since /repo d7107b4): the identity probe is one more access that can fail —
+    NoSuchProcess(pid) or nothing leaves it -/
+theorem rootStop_safe (o : Obj) :
+    Tri (NspOnly o.pid) (Fe.rootStop (goodCfg r) o) (fun _ => True) := by
+  unfold Fe.rootStop
+  rw [if_pos (show (goodCfg r).parentRootGuard = true from rfl)]
+  exact raiseIfPidReused_safe r o
+
 theorem fe_ppid_safe (o : Obj) : Tri (PsOnly o.pid) (Fe.ppid (goodCfg r) o) (fun _ => True) := by
   unfold Fe.ppid
   refine tri_memoIf _ _ _ _ (fun _ _ _ _ => trivial) (fun k v hk _ => cacheInv_fe _ (fun _ => rfl) hk) ?_
@@ -391,7 +399,7 @@ theorem parent_partial_safe (o : Obj) : Tri (OrAd o.pid) (Fe.parent (goodCfg r) 
   · rename_i hnone
     exact absurd (foldl_min_none _ _ hnone).1 hne
   · split
-    · exact tri_pure trivial
+    · exact tri_bind (tri_exc (rootStop_safe r o) (fun _ _ _ h => Or.inl (nspOnly_psOnly h))) (fun _ _ => tri_pure trivial)
     · refine tri_bind (tri_exc (fe_ppid_safe r o) (fun _ _ _ h => Or.inl h)) (fun pp _ => ?_)
       refine tri_bind (tri_exc (fe_createTime_safe r o) (fun _ _ _ h => Or.inl h)) (fun ct _ => ?_)
       refine tri_tryCatch (E' := fun c k e => PsOnly pp c k e) ?_ (fun e h c k he => ?_) (fun e m' h he => ?_)
